@@ -1077,10 +1077,140 @@ theorem intersects_iff_geoLeaves_on
       have hcg : c.intersects g = true := (ih c hc g cc cg).2 ⟨la, hlac, lb, hlbg, h⟩
       exact ⟨c, hc, ne_l c g cc cg hcg, g, hg, ne_r c g cc cg hcg, hM c g cc cg hcg, hcg⟩
 
-/-- symmetry of Intersects on all objects over `C`, from symmetry (and the two laws) on leaf pairs -/
+end lift
+
+/-! ### Intersects without the rectangle law: symmetry needs only symmetry and emptiness on leaves -/
+
+theorem leafDeep_geoLeaves_rect : ∀ x : Obj, x.isLeafDeep = true → ∀ l ∈ x.geoLeaves, l.rect = x.rect := by
+  intro x
+  induction x using Obj.ind' with
+  | hatom a ha => intro _ l hl; rw [atom_geoLeaves ha] at hl; simp at hl; rw [hl]
+  | hfeat b ex ih =>
+    intro h l hl
+    rw [feature_rect]
+    exact ih (by simpa [Obj.isLeafDeep] using h) l (by rw [Obj.geoLeaves] at hl; exact hl)
+  | hcoll k cs ex idx ih => intro h; simp [Obj.isLeafDeep] at h
+
+/-- the rectangle of `x` covers the rectangle of each non-empty geometry atom of `x` (and then `x`
+    is not empty) -/
+theorem rect_covers_geoLeaf : ∀ x : Obj, ∀ l ∈ x.geoLeaves, l.empty = false →
+    x.rect.containsBox l.rect = true ∧ x.empty = false := by
+  intro x
+  induction x using Obj.ind' with
+  | hatom a ha =>
+    intro l hl hle; rw [atom_geoLeaves ha] at hl; simp at hl; subst hl
+    exact ⟨Box.containsBox_refl _, hle⟩
+  | hfeat b ex ih =>
+    intro l hl hle
+    rw [feature_rect, feature_empty]
+    exact ih l (by rw [Obj.geoLeaves] at hl; exact hl) hle
+  | hcoll k cs ex idx ih =>
+    intro l hl hle
+    rw [Obj.geoLeaves] at hl
+    obtain ⟨c, hc, hlc⟩ := (mem_geoLeavesL cs l).1 hl
+    obtain ⟨h1, h2⟩ := ih c hc l hlc hle
+    refine ⟨Box.containsBox_trans (coll_rect_covers_child hc h2) h1, ?_⟩
+    rw [Obj.empty, allEmpty_false_iff]
+    exact ⟨c, hc, h2⟩
+
+section symm2
+variable {C : Obj → Prop}
+
+/-- Given only that empty leaves intersect nothing: `a.intersects b` holds iff some geometry atom of
+    `a` intersects some geometry atom of `b` AND their rectangles meet — the rectangle condition
+    being waived when no collection is involved on either side (then no `Search` ever runs). -/
+theorem intersects_iff_geoLeaves_rect_on
+    (hempty : ∀ a b : Obj, a.isLeaf = true → b.isLeaf = true → C a → C b →
+      (a.empty = true ∨ b.empty = true) → a.intersects b = false) :
+    ∀ a b : Obj, Obj.AllLeaves C a → Obj.AllLeaves C b → (a.intersects b = true ↔
+      ∃ la ∈ a.geoLeaves, ∃ lb ∈ b.geoLeaves,
+        (la.rect.intersects lb.rect = true ∨ (a.isLeafDeep = true ∧ b.isLeafDeep = true)) ∧
+        la.intersects lb = true) := by
+  have hE := intersects_of_empty_lift_on hempty
+  have ne_l : ∀ a b : Obj, Obj.AllLeaves C a → Obj.AllLeaves C b → a.intersects b = true →
+      a.empty = false := by
+    intro a b ca cb h
+    cases he : a.empty with
+    | false => rfl
+    | true => rw [hE a b ca cb (Or.inl he)] at h; cases h
+  have ne_r : ∀ a b : Obj, Obj.AllLeaves C a → Obj.AllLeaves C b → a.intersects b = true →
+      b.empty = false := by
+    intro a b ca cb h
+    cases he : b.empty with
+    | false => rfl
+    | true => rw [hE a b ca cb (Or.inr he)] at h; cases h
+  -- atoms of objects over `C` are over `C`
+  have catom : ∀ x : Obj, Obj.AllLeaves C x → ∀ l ∈ x.geoLeaves, Obj.AllLeaves C l := by
+    intro x cx l hl g hg
+    rw [atom_geoLeaves (geoLeaves_atom x l hl)] at hg; simp at hg; subst hg
+    exact cx g hl
+  have step1 : ∀ a : Obj, a.isAtom = true → Obj.AllLeaves C a → ∀ b : Obj, Obj.AllLeaves C b →
+      (a.intersects b = true ↔ ∃ lb ∈ b.geoLeaves,
+        (a.rect.intersects lb.rect = true ∨ b.isLeafDeep = true) ∧ a.intersects lb = true) := by
+    intro a ha ca b
+    induction b using Obj.ind' with
+    | hatom b hb =>
+      intro _; rw [atom_geoLeaves hb]
+      have : b.isLeafDeep = true := by cases b <;> simp_all [Obj.isAtom, Obj.isLeafDeep]
+      simp [this]
+    | hfeat b ex ih =>
+      intro cb; rw [atom_intersects_feature ha, Obj.geoLeaves, Obj.isLeafDeep]
+      exact ih (allLeaves_feature cb)
+    | hcoll k cs ex idx ih =>
+      intro cb
+      rw [atom_intersects_coll_iff ha, Obj.geoLeaves]
+      simp only [Obj.isLeafDeep, Bool.false_eq_true, or_false]
+      constructor
+      · rintro ⟨c, hc, _, hr, hac⟩
+        obtain ⟨lb, hlb, hor, h⟩ := (ih c hc (allLeaves_child cb hc)).1 hac
+        refine ⟨lb, (mem_geoLeavesL cs lb).2 ⟨c, hc, hlb⟩, ?_, h⟩
+        rcases hor with hor | hor
+        · exact hor
+        · rw [leafDeep_geoLeaves_rect c hor lb hlb, Box.intersects_comm]; exact hr
+      · rintro ⟨lb, hlb, hr, h⟩
+        obtain ⟨c, hc, hlc⟩ := (mem_geoLeavesL cs lb).1 hlb
+        have cc := allLeaves_child cb hc
+        have hac : a.intersects c = true := (ih c hc cc).2 ⟨lb, hlc, Or.inl hr, h⟩
+        refine ⟨c, hc, ne_r a c ca cc hac, ?_, hac⟩
+        have hlbe : lb.empty = false := ne_r a lb ca (catom c cc lb hlc) h
+        rw [Box.intersects_comm]
+        exact Box.intersects_mono (Box.containsBox_refl _) (rect_covers_geoLeaf c lb hlc hlbe).1 hr
+  intro a
+  induction a using Obj.ind' with
+  | hatom a ha =>
+    intro b ca cb
+    have : a.isLeafDeep = true := by cases a <;> simp_all [Obj.isAtom, Obj.isLeafDeep]
+    rw [atom_geoLeaves ha, step1 a ha ca b cb]; simp [this]
+  | hfeat a ex ih =>
+    intro b ca; rw [feature_intersects, Obj.geoLeaves, Obj.isLeafDeep]; exact ih b (allLeaves_feature ca)
+  | hcoll k cs ex idx ih =>
+    intro b ca cb
+    rw [collR_intersects_iff, Obj.geoLeaves]
+    simp only [Obj.isLeafDeep, Bool.false_eq_true, false_and, or_false]
+    constructor
+    · rintro ⟨c, hc, _, g, hg, _, hr, hcg⟩
+      obtain ⟨la, hla, lb, hlb, hor, h⟩ :=
+        (ih c hc g (allLeaves_child ca hc) (allLeaves_leaf cb hg)).1 hcg
+      refine ⟨la, (mem_geoLeavesL cs la).2 ⟨c, hc, hla⟩, lb,
+        (mem_geoLeaves_iff_leaves b lb).2 ⟨g, hg, hlb⟩, ?_, h⟩
+      rcases hor with hor | ⟨d1, d2⟩
+      · exact hor
+      · rw [leafDeep_geoLeaves_rect c d1 la hla, leafDeep_geoLeaves_rect g d2 lb hlb]; exact hr
+    · rintro ⟨la, hla, lb, hlb, hr, h⟩
+      obtain ⟨c, hc, hlac⟩ := (mem_geoLeavesL cs la).1 hla
+      obtain ⟨g, hg, hlbg⟩ := (mem_geoLeaves_iff_leaves b lb).1 hlb
+      have cc := allLeaves_child ca hc
+      have cg := allLeaves_leaf cb hg
+      have hcg : c.intersects g = true := (ih c hc g cc cg).2 ⟨la, hlac, lb, hlbg, Or.inl hr, h⟩
+      have hlae : la.empty = false := ne_l la lb (catom c cc la hlac) (catom g cg lb hlbg) h
+      have hlbe : lb.empty = false := ne_r la lb (catom c cc la hlac) (catom g cg lb hlbg) h
+      exact ⟨c, hc, ne_l c g cc cg hcg, g, hg, ne_r c g cc cg hcg,
+        Box.intersects_mono (rect_covers_geoLeaf c la hlac hlae).1 (rect_covers_geoLeaf g lb hlbg hlbe).1 hr,
+        hcg⟩
+
+/-- symmetry of Intersects on all objects over `C`, from symmetry on leaf pairs (plus: empty leaves
+    intersect nothing) -/
 theorem intersects_symm_lift_on
-    (hmeet : ∀ a b : Obj, a.isLeaf = true → b.isLeaf = true → C a → C b → a.intersects b = true →
-      a.rect.intersects b.rect = true)
     (hempty : ∀ a b : Obj, a.isLeaf = true → b.isLeaf = true → C a → C b →
       (a.empty = true ∨ b.empty = true) → a.intersects b = false)
     (hsym : ∀ a b : Obj, a.isLeaf = true → b.isLeaf = true → C a → C b →
@@ -1097,15 +1227,21 @@ theorem intersects_symm_lift_on
       · rw [atom_intersects_circle ha, circle_intersects]
     · rw [atom_intersects_circle hb, circle_intersects]
   intro a b ca cb
-  rw [Bool.eq_iff_iff, intersects_iff_geoLeaves_on hmeet hempty a b ca cb,
-    intersects_iff_geoLeaves_on hmeet hempty b a cb ca]
+  rw [Bool.eq_iff_iff, intersects_iff_geoLeaves_rect_on hempty a b ca cb,
+    intersects_iff_geoLeaves_rect_on hempty b a cb ca]
   constructor
-  · rintro ⟨la, hla, lb, hlb, h⟩
-    exact ⟨lb, hlb, la, hla, by rw [← hatom a b la lb ca cb hla hlb]; exact h⟩
-  · rintro ⟨lb, hlb, la, hla, h⟩
-    exact ⟨la, hla, lb, hlb, by rw [hatom a b la lb ca cb hla hlb]; exact h⟩
+  · rintro ⟨la, hla, lb, hlb, hor, h⟩
+    refine ⟨lb, hlb, la, hla, ?_, by rw [← hatom a b la lb ca cb hla hlb]; exact h⟩
+    rcases hor with hor | ⟨d1, d2⟩
+    · left; rw [Box.intersects_comm]; exact hor
+    · right; exact ⟨d2, d1⟩
+  · rintro ⟨lb, hlb, la, hla, hor, h⟩
+    refine ⟨la, hla, lb, hlb, ?_, by rw [hatom a b la lb ca cb hla hlb]; exact h⟩
+    rcases hor with hor | ⟨d1, d2⟩
+    · left; rw [Box.intersects_comm]; exact hor
+    · right; exact ⟨d2, d1⟩
 
-end lift
+end symm2
 
 /-! ### the unrestricted forms (class = all leaves) -/
 
@@ -1149,16 +1285,13 @@ theorem intersects_iff_geoLeaves
     a b (allLeaves_true a) (allLeaves_true b)
 
 theorem intersects_symm_lift
-    (hmeet : ∀ a b : Obj, a.isLeaf = true → b.isLeaf = true → a.intersects b = true →
-      a.rect.intersects b.rect = true)
     (hempty : ∀ a b : Obj, a.isLeaf = true → b.isLeaf = true → (a.empty = true ∨ b.empty = true) →
       a.intersects b = false)
     (hsym : ∀ a b : Obj, a.isLeaf = true → b.isLeaf = true → a.intersects b = b.intersects a) :
     ∀ a b : Obj, a.intersects b = b.intersects a :=
   fun a b => intersects_symm_lift_on (C := fun _ => True)
-    (fun a b ha hb _ _ => hmeet a b ha hb) (fun a b ha hb _ _ => hempty a b ha hb)
+    (fun a b ha hb _ _ => hempty a b ha hb)
     (fun a b ha hb _ _ => hsym a b ha hb) a b (allLeaves_true a) (allLeaves_true b)
-
 
 /-! ### interchangeable atoms; empty arguments and Intersects -/
 
@@ -1412,6 +1545,36 @@ theorem pr_contains_intersects (a b : Obj) (ha : a.isPointOrRect = true) (hb : b
          obtain ⟨w1, w2⟩ := hwf
          refine ⟨?_, ?_, ?_, ?_⟩ <;> linarith)
 
+/-! ### the loops as `Search` followed by any -/
+theorem containsSome_eq_any (cs : List Obj) (g : Obj) :
+    containsSome cs g = (searchChildren cs g.rect).any (fun c => c.contains g) := by
+  induction cs with
+  | nil => simp [containsSome, searchChildren]
+  | cons c cs ih =>
+    simp only [searchChildren] at ih
+    by_cases hf : (!c.empty && c.rect.intersects g.rect) = true
+    · simp [containsSome, searchChildren, hf, ih]
+    · simp [containsSome, searchChildren, hf, ih]
+
+theorem intersectsSome_eq_any (cs : List Obj) (g : Obj) :
+    intersectsSome cs g = (searchChildren cs g.rect).any (fun c => c.intersects g) := by
+  induction cs with
+  | nil => simp [intersectsSome, searchChildren]
+  | cons c cs ih =>
+    simp only [searchChildren] at ih
+    by_cases hf : (!c.empty && c.rect.intersects g.rect) = true
+    · simp [intersectsSome, searchChildren, hf, ih]
+    · simp [intersectsSome, searchChildren, hf, ih]
+
+theorem intersectsRectL_eq_any (cs : List Obj) (r : Box) :
+    intersectsRectL cs r = (searchChildren cs r).any (fun c => c.intersectsRect r) := by
+  induction cs with
+  | nil => simp [intersectsRectL, searchChildren]
+  | cons c cs ih =>
+    simp only [searchChildren] at ih
+    by_cases hf : (!c.empty && c.rect.intersects r) = true
+    · simp [intersectsRectL, searchChildren, hf, ih]
+    · simp [intersectsRectL, searchChildren, hf, ih]
 /-! ### evaluating concrete point/rect/collection/feature examples
 
 `Obj.contains` / `Obj.intersects` are compiled by well-founded recursion, so `decide` cannot
